@@ -18,6 +18,7 @@ func init() {
 		"go/types, go/ssa and x/tools call resolution are correct")
 	reg("C20", "C20.R1", "E2", "refusal returns of In/streamEvent = exactly the documented reasons", 6, ruleRefusalSites)
 	reg("C20", "C20.R2", "E2", "checkInputBytes: refusal, cut and pass-through branches", 4, ruleCheckInputBytes)
+	reg("C20", "C20.R4", "E7", "ban value and maintenance cap are unbanIterations x the source's own threshold (the one its counter decays by)", 2, ruleBanCapAgreement)
 	reg("C20", "C20.R3", "E2", "antispam gating in In and the constant verdicts inside IsSpam", 1, ruleAntispamGating)
 }
 
@@ -466,4 +467,78 @@ func ruleAntispamGating(c *Ctx, r *Rule) {
 			}
 		}
 	}
+}
+
+// ruleBanCapAgreement: wherever the antispammer multiplies by unbanIterations, the other factor is
+// the per-source threshold: in Maintenance the value looked up in sourcesThresholds (which is also
+// what the counter is decremented by), in IsSpam the threshold that is stored into sourcesThresholds.
+func ruleBanCapAgreement(c *Ctx, r *Rule) {
+	n := 0
+	for _, fn := range c.ModFuncs {
+		if c.pkgOf(fn) != "pipeline/antispam" {
+			continue
+		}
+		// the per-source threshold of this function
+		var perSource []ssa.Value
+		for _, b := range fn.Blocks {
+			for _, in := range b.Instrs {
+				switch x := in.(type) {
+				case *ssa.Lookup:
+					if isLoadOfField(x.X, antispamPkg, "Antispammer", "sourcesThresholds") {
+						perSource = append(perSource, x)
+					}
+				case *ssa.MapUpdate:
+					if isLoadOfField(x.Map, antispamPkg, "Antispammer", "sourcesThresholds") {
+						perSource = append(perSource, x.Value)
+					}
+				}
+			}
+		}
+		for _, b := range fn.Blocks {
+			for _, in := range b.Instrs {
+				bo, ok := in.(*ssa.BinOp)
+				if !ok || bo.Op != token.MUL {
+					continue
+				}
+				var other ssa.Value
+				if isLoadOfField(stripConv(bo.X), antispamPkg, "Antispammer", "unbanIterations") {
+					other = bo.Y
+				} else if isLoadOfField(stripConv(bo.Y), antispamPkg, "Antispammer", "unbanIterations") {
+					other = bo.X
+				} else {
+					continue
+				}
+				n++
+				ok2 := false
+				for _, ps := range perSource {
+					if stripConv(other) == ps || sameValue(stripConv(other), ps) {
+						ok2 = true
+					}
+					if e, isE := stripConv(other).(*ssa.Extract); isE && e.Tuple == ps {
+						ok2 = true
+					}
+				}
+				r.Ob(ok2, fmt.Sprintf("%s|unban-factor#%d", c.fnName(fn), n), bo.Pos(),
+					"unbanIterations is multiplied by the source's own threshold (the value kept in sourcesThresholds, by which its counter decays each round): with any other factor a silent banned source is not unbanned within unban_iterations+1 rounds: "+c.path(other))
+			}
+		}
+	}
+	r.Inst(n)
+	// the decay in Maintenance subtracts that same per-source threshold
+	m := c.Method("pipeline/antispam", "Antispammer", "Maintenance")
+	if m == nil {
+		r.Unresolved("Antispammer.Maintenance")
+		return
+	}
+	okDecay := false
+	for _, b := range m.Blocks {
+		for _, in := range b.Instrs {
+			if bo, ok := in.(*ssa.BinOp); ok && bo.Op == token.SUB {
+				if lk, ok := stripConv(bo.Y).(*ssa.Lookup); ok && isLoadOfField(lk.X, antispamPkg, "Antispammer", "sourcesThresholds") {
+					okDecay = true
+				}
+			}
+		}
+	}
+	r.Ob(okDecay, c.fnName(m)+"|decay-by-own-threshold", m.Pos(), "each maintenance round lowers a source's counter by that source's own threshold")
 }
